@@ -329,6 +329,8 @@ def strategy_dataset(tier):
         "fp_none": st.integers(0, 4).map(lambda x: x == 0),
         "finite": st.integers(0, 2).map(lambda x: x == 0),
         "k": st.integers(1, 12),
+        # a caller-supplied transformation is part of the pipeline
+        "proc": st.booleans(),
     })
 
 
@@ -383,6 +385,13 @@ def run_dataset(case, ctx):
             # documented as allowed: file_parallelism: int | None
             opts["file_parallelism"] = None
             fp = 1 if fmt != "tfrec" else (os.cpu_count() or 1)
+        proc = bool(case.get("proc")) and not (iface == "tfdata" and
+                                               case.get("fp_none"))
+        if proc:
+            opts["process_record"] = (iter_common.tf_process_record
+                                      if iface == "tfdata" else
+                                      iter_common.np_process_record)
+        iter_common.reset_calls()
         mon = openmon.OpenMonitor([root / "ds"])
         dsops._AsyncBridge.idle_s = 0.03  # pylint: disable=protected-access
         try:
@@ -410,6 +419,17 @@ def run_dataset(case, ctx):
                 f"{iface} fmt={fmt} S={s} eps={eps} shuffle={shuffle} "
                 f"file_parallelism={fp}: taking {k} examples opened {opens} "
                 f"shard files, allowed {allowed} (independent of S)")
+        if proc and iface != "tfdata":
+            # every transformed example comes from an opened shard
+            calls = iter_common.calls()
+            if calls > allowed * eps + shuffle:
+                ctx.fail(
+                    "bounded", ("transformation-calls-exceed-bound", iface),
+                    f"{iface} fmt={fmt} S={s} eps={eps} shuffle={shuffle} "
+                    f"file_parallelism={fp}: taking {k} examples applied "
+                    f"process_record to {calls} examples, allowed "
+                    f"{allowed * eps + shuffle} (independent of S)")
+            ctx.label("process_record")
         ctx.label("iface=" + iface, f"mult={case['mult']}", "fmt=" + fmt)
         ctx.count("opens", opens)
         if s > allowed + 2:
